@@ -503,6 +503,11 @@ func (k Keeper) PayFromDelegation(ctx sdk.Context, delAddr sdk.AccAddress, payou
 			remaining = remaining.Sub(ubdAmount)
 		}
 		if val.GetTokens().IsZero() {
+			if ubdAmount.IsZero() {
+				// The shares of this delegation are worth nothing (the validator's tokens were
+				// all slashed) and nothing is taken from it: the other delegations pay.
+				continue
+			}
 			panic("validator has no tokens to pay from")
 		}
 		// Shares are rounded up: converting them back to tokens then yields exactly ubdAmount.
